@@ -555,7 +555,11 @@ def sur_op(ctx, S, s, m, cls, op, seed, rec, key=None):
 def sur_case(ctx, S, cid, r, cls, N, n, ops):
     data = gen_data(r, cls, N, n)
     m = Model(data)
-    ok, s = ctx.call(S, data.copy(), silence_level=3)
+    from pvm.gen.held import as_held
+    hd, htag = as_held(ctx.rng("held", cid), data,
+                       forms=("c", "c", "c", "f", "view", "f4", "int"))
+    ctx.count("input_held_as:" + htag)
+    ok, s = ctx.call(S, hd, silence_level=3)
     if not ok:
         ctx.violation(f"Surrogates.__init__:raises:{type(s).__name__}",
                       {"exc": repr(s)}, cid)
